@@ -37,19 +37,20 @@ Proof.
   assert (H4 : exists mo, match set_bank m 8 lo with Val m1 => Val (Some m1) | Panic => Panic | OutOfDraws => OutOfDraws end = Val mo /\
                           match mo with Some m' => length m' = 9 | None => True end).
   { destruct (set_bank_total m 8 lo) as [m1 [A B]]; [lia|]. rewrite A. eexists. split; [reflexivity|]. cbn. lia. }
-  destruct fixedp; [unfold fix_mask_update | unfold dyn_mask_update];
+  destruct fixedp.
+  - unfold fix_mask_update.
     (destruct (ctl <=? 3)%N eqn:E3; [exact (Hlow eq_refl)|]); (destruct (ctl =? 4)%N eqn:E4; [exact H4|]);
-    destruct (ctl =? 5)%N eqn:E5.
-  - eexists. split; [reflexivity|]. len9.
-  - destruct (ctl =? 6)%N; [eexists; split; [reflexivity|]; len9|].
-    destruct (ctl =? 7)%N; [eexists; split; [reflexivity|]; len9|].
-    eexists. split; [reflexivity|exact I].
-  - cbv zeta. assert (Hb : (N.land (lo + 256 * hi) (N.shiftl 1 8) * 255 <= 65535)%N).
-    { pose proof (land_le_r (lo + 256 * hi) (N.shiftl 1 8)) as L. change (N.shiftl 1 8) with 256%N in *. lia. }
-    destruct (65535 <? N.land (lo + 256 * hi) (N.shiftl 1 8) * 255)%N eqn:Eo; [lia|].
-    eexists. split; [reflexivity|]. cbn. reflexivity.
-  - destruct (ctl =? 6)%N; [eexists; split; [reflexivity|]; len9|].
-    eexists. split; [reflexivity|exact I].
+      destruct (ctl =? 5)%N eqn:E5.
+    + eexists. split; [reflexivity|]. len9.
+    + destruct (ctl =? 6)%N; [eexists; split; [reflexivity|]; len9|].
+      destruct (ctl =? 7)%N; [eexists; split; [reflexivity|]; len9|].
+      eexists. split; [reflexivity|exact I].
+  - unfold dyn_mask_update. destruct (ctl =? 0)%N eqn:E0.
+    + destruct (set_bank_total m 0 lo) as [m1 [A B]]; [lia|]. rewrite A.
+      destruct (set_bank_total m1 1 hi) as [m2 [A2 B2]]; [lia|]. rewrite A2.
+      eexists. split; [reflexivity|]. cbn. lia.
+    + destruct (ctl =? 6)%N; [eexists; split; [reflexivity|]; len9|].
+      eexists. split; [reflexivity|exact I].
 Qed.
 
 (* ------------------------------------------------------------------ the shape invariant of a region and of the configuration *)
